@@ -162,6 +162,7 @@ theorem capInv_step {c c' : Cap} {a : Act} (h : CapInv c) (hs : step c a = some 
       · have := h.le; show c.cur - 1 ≤ M; omega
     · split at hs <;> cases hs
       exact h
+  case peerHalfClose id => split at hs <;> cases hs; exact h
   case setMax n =>
     split at hs <;> cases hs
     refine ⟨h.size, h.count, h.le, ?_, h.unit1, h.nodup⟩
